@@ -1,5 +1,243 @@
+//! Text-import drivers.
+//! `fenmut`   - for each base FEN: the base itself in its 4/5/6-field forms, every single-character
+//!              deletion, and every insertion / replacement at every index from an alphabet of
+//!              character classes (exhaustive), or random double edits; each string is imported
+//!              with Game::new under catch_unwind and the outcome recorded (C17).
+//! `variants` - for each base FEN: every single-feature variation of the position (side, each
+//!              castling right, each en-passant file, each square's content), imported, with both
+//!              hashes recorded (C05).
+use crate::chess::Game;
+use crate::obs::{self, guard};
+use crate::play::{emit, open_out, read_lines, Out};
+use crate::rng::Rng;
 use crate::Args;
-pub fn run(_args: &Args) {
-    eprintln!("TOOL-ERROR not implemented");
-    std::process::exit(2);
+use serde_json::{json, Value};
+use std::io::Write;
+
+const ALPHABET: &[&str] = &[
+    "K", "Q", "R", "B", "N", "P", "k", "q", "r", "b", "n", "p", "0", "1", "2", "3", "4", "5", "6", "7", "8",
+    "9", "/", "-", " ", "w", "W", "x", "a", "h", "i", "A", "e", "é", "š", "𝔸", "\t",
+];
+
+fn import_event(out: &mut Out, s: &str, with_moves: bool) {
+    let r = guard(|| Game::new(s));
+    match r {
+        Err(msg) => emit(out, json!({"ev": "new", "fen": obs::chars(s), "ok": false, "panic": true, "err": msg})),
+        Ok(Err(e)) => emit(out, json!({"ev": "new", "fen": obs::chars(s), "ok": false, "panic": false, "err": format!("{}", e)})),
+        Ok(Ok(mut g)) => {
+            let o = obs::raw(&g);
+            if with_moves {
+                match guard(|| obs::gen(&mut g, true)) {
+                    Ok(lg) => emit(out, json!({"ev": "new", "fen": obs::chars(s), "ok": true, "o": o, "lg": obs::texts(&lg)})),
+                    Err(msg) => emit(out, json!({"ev": "new", "fen": obs::chars(s), "ok": true, "o": o, "lgpanic": msg})),
+                }
+            } else {
+                emit(out, json!({"ev": "new", "fen": obs::chars(s), "ok": true, "o": o}));
+            }
+        }
+    }
+}
+
+fn from_chars(cs: &[char]) -> String {
+    cs.iter().collect()
+}
+
+pub fn run(args: &Args) {
+    match args.cmd.as_str() {
+        "variants" => run_variants(args),
+        _ => run_fenmut(args),
+    }
+}
+
+fn run_fenmut(args: &Args) {
+    let bases = read_lines(args.req("fens"));
+    let mut out = open_out(args.req("out"));
+    let mode = args.get("mode").unwrap_or("exhaustive");
+    let mut rng = Rng::new(args.num("seed", 1));
+    let random_n = args.num("n", 2000) as usize;
+    for base in &bases {
+        // the base in its 6-, 5- and 4-field forms (must be accepted as the same position)
+        let fields: Vec<&str> = base.split(' ').collect();
+        import_event(&mut out, base, true);
+        if fields.len() >= 5 {
+            import_event(&mut out, &fields[..5].join(" "), true);
+            import_event(&mut out, &fields[..4].join(" "), true);
+        }
+        let cs: Vec<char> = base.chars().collect();
+        if mode == "exhaustive" {
+            for i in 0..cs.len() {
+                let mut d = cs.clone();
+                d.remove(i);
+                import_event(&mut out, &from_chars(&d), true);
+            }
+            for a in ALPHABET {
+                let ac: Vec<char> = a.chars().collect();
+                for i in 0..=cs.len() {
+                    let mut d = cs.clone();
+                    for (k, c) in ac.iter().enumerate() {
+                        d.insert(i + k, *c);
+                    }
+                    import_event(&mut out, &from_chars(&d), true);
+                    if i < cs.len() && cs[i..].iter().take(1).collect::<String>() != **a {
+                        let mut r = cs.clone();
+                        r.remove(i);
+                        for (k, c) in ac.iter().enumerate() {
+                            r.insert(i + k, *c);
+                        }
+                        import_event(&mut out, &from_chars(&r), true);
+                    }
+                }
+            }
+            // whole-field replacements the statement names: truncated fields, words
+            for (fi, words) in [
+                (1usize, vec!["white", "black", "wb", "-", ""]),
+                (2, vec!["KQkqK", "kqKQ", "K-", "AHah", "KQkqx", ""]),
+                (3, vec!["e", "e33", "3e", "i3", "e9", "e0", "E3", "e4", "--", ""]),
+            ] {
+                for w in words {
+                    let mut f: Vec<String> = fields.iter().map(|s| s.to_string()).collect();
+                    if fi < f.len() {
+                        f[fi] = w.to_string();
+                        import_event(&mut out, &f.join(" "), true);
+                    }
+                }
+            }
+        } else {
+            for _ in 0..random_n {
+                let mut d = cs.clone();
+                let edits = 2 + rng.below(2);
+                for _ in 0..edits {
+                    let a: Vec<char> = ALPHABET[rng.below(ALPHABET.len())].chars().collect();
+                    match rng.below(3) {
+                        0 if !d.is_empty() => {
+                            let i = rng.below(d.len());
+                            d.remove(i);
+                        }
+                        1 if !d.is_empty() => {
+                            let i = rng.below(d.len());
+                            d.remove(i);
+                            for (k, c) in a.iter().enumerate() {
+                                d.insert(i + k, *c);
+                            }
+                        }
+                        _ => {
+                            let i = rng.below(d.len() + 1);
+                            for (k, c) in a.iter().enumerate() {
+                                d.insert(i + k, *c);
+                            }
+                        }
+                    }
+                }
+                import_event(&mut out, &from_chars(&d), true);
+            }
+        }
+    }
+    out.flush().unwrap();
+}
+
+fn hash_of(s: &str) -> Value {
+    match guard(|| Game::new(s)) {
+        Ok(Ok(g)) => json!({"ok": true, "h": obs::limbs(g.hash())}),
+        Ok(Err(_)) => json!({"ok": false}),
+        Err(m) => json!({"ok": false, "panic": m}),
+    }
+}
+
+fn run_variants(args: &Args) {
+    let bases = read_lines(args.req("fens"));
+    let mut out = open_out(args.req("out"));
+    for base in &bases {
+        let f: Vec<String> = base.split(' ').map(|s| s.to_string()).collect();
+        if f.len() < 4 {
+            continue;
+        }
+        let hb = hash_of(base);
+        let mut variants: Vec<String> = vec![];
+        let rest = |a: &str, b: &str, c: &str, d: &str| format!("{} {} {} {} 0 1", a, b, c, d);
+        // side
+        variants.push(rest(&f[0], if f[1] == "w" { "b" } else { "w" }, &f[2], &f[3]));
+        // each castling right toggled
+        for r in ['K', 'Q', 'k', 'q'] {
+            let mut set: Vec<char> = f[2].chars().filter(|c| *c != '-').collect();
+            if set.contains(&r) {
+                set.retain(|c| *c != r);
+            } else {
+                set.push(r);
+            }
+            let mut o = String::new();
+            for c in ['K', 'Q', 'k', 'q'] {
+                if set.contains(&c) {
+                    o.push(c);
+                }
+            }
+            if o.is_empty() {
+                o.push('-');
+            }
+            variants.push(rest(&f[0], &f[1], &o, &f[3]));
+        }
+        // each en-passant file (and none)
+        let rank = if f[1] == "w" { '6' } else { '3' };
+        for file in "abcdefgh".chars() {
+            let e = format!("{}{}", file, rank);
+            if e != f[3] {
+                variants.push(rest(&f[0], &f[1], &f[2], &e));
+            }
+        }
+        if f[3] != "-" {
+            variants.push(rest(&f[0], &f[1], &f[2], "-"));
+        }
+        // each square's content over all 13 values
+        let mut cells: Vec<char> = vec![];
+        for ch in f[0].chars() {
+            if ch == '/' {
+                continue;
+            }
+            if let Some(d) = ch.to_digit(10) {
+                for _ in 0..d {
+                    cells.push('.');
+                }
+            } else {
+                cells.push(ch);
+            }
+        }
+        if cells.len() == 64 {
+            for i in 0..64 {
+                for c in ".KQRBNPkqrbnp".chars() {
+                    if cells[i] == c {
+                        continue;
+                    }
+                    let mut v = cells.clone();
+                    v[i] = c;
+                    let mut placement = String::new();
+                    for r in 0..8 {
+                        let mut run = 0;
+                        for k in 0..8 {
+                            let x = v[r * 8 + k];
+                            if x == '.' {
+                                run += 1;
+                            } else {
+                                if run > 0 {
+                                    placement.push_str(&run.to_string());
+                                    run = 0;
+                                }
+                                placement.push(x);
+                            }
+                        }
+                        if run > 0 {
+                            placement.push_str(&run.to_string());
+                        }
+                        if r < 7 {
+                            placement.push('/');
+                        }
+                    }
+                    variants.push(rest(&placement, &f[1], &f[2], &f[3]));
+                }
+            }
+        }
+        for v in variants {
+            let hv = hash_of(&v);
+            emit(&mut out, json!({"ev": "var", "base": obs::chars(base), "var": obs::chars(&v), "b": hb, "v": hv}));
+        }
+    }
+    out.flush().unwrap();
 }
